@@ -59,6 +59,18 @@ CLAIMED.update({
    note="The logger callback only records. Trusted: rustc/std, proptest, the harness's reading of the LogFilter documentation."),
 })
 
+SCHED_NOTE = ("stakker is rebuilt with --cfg uazu_stakker_verif (hook commit in /repo, add-only) so that the unchanged sync modules run on shuttle's primitives; exploration covers sequentially consistent "
+    "interleavings only (Mutex/Condvar trusted as primitives); C11's weak-memory clause is not decided here (see DESIGN.md section 7). Trusted: rustc/std, proptest, shuttle.")
+SCHED_TECH = "schedule fuzzing: proptest generates (scenario bytes, schedule bytes) for a byte-driven shuttle scheduler plus seeded random/PCT schedules; history oracles at quiescence; shuttle's deadlock detector catches lost wake-ups; failing pairs shrink together and are replayable"
+def sched(ref, text):
+    return dict(engine="E4 schedule explorer", ref=ref, technique=SCHED_TECH, text=text, note=SCHED_NOTE)
+CLAIMED.update({
+ "C11": sched("5/C11", "1-3 worker threads wake 1-4 wakers (same bitmap word / different words / different bitmaps) while the main thread collects with poll_wake() only in response to poll-waker callbacks; a logical clock stamps each wake() and each handler invocation, and at quiescence every wake() that returned must have a handler invocation of its waker stamped after the wake began (spurious calls allowed). Each scenario runs under a generated byte schedule and 8-24 seeded random/PCT schedules. The 'publishes the waker's writes' / C11-reordering clause is outside what sequentially consistent exploration can decide."),
+ "C12": sched("5/C12", "Worker and main threads drop references to wakers (also by unwinding from a panicking worker) racing with wake() and poll_wake(); main creates new wakers after each observed deleted=true so slots are reused and may wake them; per handler: deleted=true exactly once, as the last call, not before the last reference was dropped, wakes preceding the drop are served, and a new waker's handler never sees the old waker's deleted=true and still gets its own wakes."),
+ "C13": sched("5/C13", "1-3 sender threads (1-2 messages, is_closed polls) race with main-thread collection and with the ChannelGuard being dropped before, between or after collections; forwarded messages must be a duplicate-free subset of the accepted ones in per-sender order, equal to all accepted ones when the guard is never dropped (a stranded message shows as missing at quiescence), and after the guard drop returned nothing is forwarded, send returns false and is_closed returns true."),
+ "C14": sched("5/C14", "A scripted worker (recv/send/cancel/yield, panic inserted at any script position) runs inside PipedThread::spawn against a main script of sends, poll responses and the drop; in the echo shape main waits for every reply before dropping, so a lost condvar/waker notification becomes a deadlock; worker-side recv results must be main's sends in order exactly once then None, fwd_recv the worker's sends in order exactly once, fwd_term exactly once, last, with None or exactly the panic text, and after the drop send/cancel report cancellation."),
+})
+
 NOT_YET = "check not built yet in this session (planned, see DESIGN.md section 5); not claimed until it exists and passes its sensitivity self-test"
 
 def main():
@@ -80,7 +92,7 @@ def main():
     na = [{"property_id": p, "reason": NOT_YET} for p in ALL if p not in CLAIMED]
     try:
         hooks = subprocess.check_output(["git", "-C", "/repo", "log", "--format=%H %s"], text=True).splitlines()
-        hook_commits = [l.split()[0] for l in hooks if " verif-hook:" in l or l.split(" ",1)[1].startswith("verif-hook")]
+        hook_commits = [l.split()[0] for l in hooks if l.split(" ",1)[1].startswith("verif-hook")]
     except Exception:
         hook_commits = []
     m = {
@@ -88,13 +100,14 @@ def main():
         "setup_cmd": "./check setup",
         "hooks": {
             "guard": "--cfg uazu_stakker_verif",
-            "enable": "RUSTFLAGS='--cfg uazu_stakker_verif' when building the shadow manifest /verif/harness/shadow (schedule exploration only); all other engines use the unmodified crate",
+            "enable": "rustflags = [\"--cfg\", \"uazu_stakker_verif\"] in /verif/harness/vsched/.cargo/config.toml; the crate is built through the generated manifest /verif/harness/shadow/Cargo.toml ([lib] path = /repo/src/lib.rs, plus shuttle). Only the schedule-exploration checks (C11-C14) use the hooks; every other engine builds the unmodified crate",
             "baseline_off_cmd": "cd /repo && cargo test --workspace --no-fail-fast --offline",
             "source_commits": hook_commits,
             "add_only": True,
         },
         "engines": [
             {"name": "E1 program VM + monitor", "path": "/verif/harness/vcore/src/vm", "serves_properties": ["C01","C02","C03","C04","C05","C06","C15","C16"], "kind_free_text": "proptest byte strings -> program VM driving the real Stakker; lock-step specification-level monitor; counting allocator"},
+            {"name": "E4 schedule explorer", "path": "/verif/harness/vsched", "serves_properties": ["C11","C12","C13","C14"], "kind_free_text": "stakker built through /verif/harness/shadow (lib path /repo/src/lib.rs + shuttle) with --cfg uazu_stakker_verif; byte-driven shuttle Scheduler + random/PCT; scenarios for Waker, Channel, PipedThread"},
             {"name": "E6 feature-matrix differential", "path": "/verif/harness/vcheck/src/matrix.rs", "serves_properties": ["C18","C20"], "kind_free_text": "vrun binary per feature set (built by ./check), persistent servers, trace-hash equality; logger sets additionally checked for Open/Close records"},
             {"name": "E3 queue differential", "path": "/verif/harness/vcore/src/queues.rs", "serves_properties": ["C17"], "kind_free_text": "flat.rs vs boxed.rs side by side: enumerated boundary sweep + proptest op sequences, event-log equality"},
             {"name": "E2 timer histories", "path": "/verif/harness/vcore/src/timers.rs", "serves_properties": ["C07", "C08", "C09", "C10", "C19"], "kind_free_text": "proptest byte strings -> timer histories -> real Stakker in virtual time vs deadline model"},
